@@ -20,14 +20,14 @@ rng = common.SplitMix64(chk.seed * 2654435761 + 8)
 # three jitter regimes: none, light, heavy -- the yield points sit between the individual atomic steps of the containers
 for regime, jit in (("nojitter", None), ("light", "%d:20:200"), ("heavy", "%d:300:3000")):
     env = {"CMI_VERIF_JITTER": jit % rng.randint(1, 10 ** 6)} if jit else {}
-    st, sd = hcheck.run_shards(chk, exe, ["--histories", str(hist if regime != "heavy" else max(5, hist // 4))], shards, timeout=900, env=env)
+    st, sd = hcheck.run_shards(chk, exe, ["--histories", str(hist if regime != "heavy" else max(5, hist // 4))], shards, timeout=300, env=env)
     for k, v in st.items():
         tot[k] = tot.get(k, 0) + v
         tot["%s_%s" % (regime, k)] = v
 # TSan pass (gcc/clang TSan understands std::thread and std::atomic; the containers' own atomics are visible to it)
 rd = chk.rundir()
 env = {"TSAN_OPTIONS": "halt_on_error=0:report_signal_unsafe=0:log_path=%s/tsan.log:exitcode=0" % rd, "CMI_VERIF_JITTER": "%d:50:500" % rng.randint(1, 10 ** 6)}
-st, sd = hcheck.run_shards(chk, exe_tsan, ["--histories", str(10 if quick else 200)], 3 if quick else 16, timeout=1800, env=env)
+st, sd = hcheck.run_shards(chk, exe_tsan, ["--histories", str(10 if quick else 200)], 3 if quick else 16, timeout=600, env=env)
 tot["tsan_histories"] = sum(v for k, v in st.items() if k.endswith("_histories"))
 reports = tsan_classify.classify_dir(rd)
 tot["tsan_reports"] = len(reports)
